@@ -356,6 +356,8 @@ func litestream.(*Compactor).EnforceRetentionByTXID(c, ctx, level, txID) (err)
   at litestream.ReplicaClient.DeleteLTXFiles#1 assert [C07.txid-listed] forall i int :: {deleted[i]} 0 <= i && i < len(deleted) ==> (exists k int :: {item(itr, k)} 0 <= k && k < it_n[itr] && deleted[i] == item(itr, k))
   at litestream.ReplicaClient.DeleteLTXFiles#1 assert [C07.txid-keep-last] it_idx[itr] == it_n[itr] && (forall i int :: {deleted[i]} 0 <= i && i < len(deleted) ==> it_n[itr] >= 1 && deleted[i] != item(itr, it_n[itr] - 1))
   at litestream.ReplicaClient.DeleteLTXFiles#1 assert [C07.txid-enabled] c.RetentionEnabled
+  at litestream.Compactor.LocalFileDeleter#1 assert [C07.txid-local] $arg0 == level && 0 <= rangeindex && rangeindex < len(deleted) && $arg1 == deleted[rangeindex].MinTXID && $arg2 == deleted[rangeindex].MaxTXID && deleted[rangeindex].MaxTXID < txID && it_n[itr] >= 1 && deleted[rangeindex] != item(itr, it_n[itr] - 1)
+  loop 1 invariant itr != nil && it_n[itr] == atloop(it_n[itr]) && -1 <= rangeindex && rangeindex < len(deleted) && (forall i int :: {deleted[i]} 0 <= i && i < len(deleted) ==> deleted[i] != nil && deleted[i].MaxTXID < txID && it_n[itr] >= 1 && deleted[i] != item(itr, it_n[itr] - 1))
   loop 0 invariant itr != nil && itOK(itr) && it_client[itr] == c.client && it_level[itr] == level && c.client == old(c.client) && lastInfo == lastSeen(itr)
   loop 0 invariant cap(deleted) == 0 || fresh(arr(deleted))
   loop 0 invariant len(deleted) <= it_idx[itr]
@@ -368,6 +370,8 @@ func litestream.(*Compactor).EnforceSnapshotRetention(c, ctx, retention) (floor,
   at litestream.ReplicaClient.DeleteLTXFiles#1 assert [C07.snap-listed] forall i int :: {deleted[i]} 0 <= i && i < len(deleted) ==> (exists k int :: {item(itr, k)} 0 <= k && k < it_n[itr] && deleted[i] == item(itr, k))
   at litestream.ReplicaClient.DeleteLTXFiles#1 assert [C07.snap-keep-newest] it_idx[itr] == it_n[itr] && (forall i int :: {deleted[i]} 0 <= i && i < len(deleted) ==> it_n[itr] >= 1 && deleted[i] != item(itr, it_n[itr] - 1))
   at litestream.ReplicaClient.DeleteLTXFiles#1 assert [C07.snap-enabled] c.RetentionEnabled
+  at litestream.Compactor.LocalFileDeleter#1 assert [C07.snap-local] $arg0 == 9 && 0 <= rangeindex && rangeindex < len(deleted) && $arg1 == deleted[rangeindex].MinTXID && $arg2 == deleted[rangeindex].MaxTXID && deleted[rangeindex].CreatedAt < timestamp && it_n[itr] >= 1 && deleted[rangeindex] != item(itr, it_n[itr] - 1)
+  loop 1 invariant itr != nil && it_n[itr] == atloop(it_n[itr]) && -1 <= rangeindex && rangeindex < len(deleted) && (forall i int :: {deleted[i]} 0 <= i && i < len(deleted) ==> deleted[i] != nil && deleted[i].CreatedAt < timestamp && it_n[itr] >= 1 && deleted[i] != item(itr, it_n[itr] - 1))
   at litestream.ReplicaClient.DeleteLTXFiles#1 assert [C07.snap-floor] minSnapshotTXID != 0 ==> (exists k int :: {item(itr, k)} 0 <= k && k < it_n[itr] && minSnapshotTXID == fmax(item(itr, k)) && fcreated(item(itr, k)) >= timestamp)
   loop 0 invariant itr != nil && itOK(itr) && it_client[itr] == c.client && it_level[itr] == 9 && c.client == old(c.client) && lastInfo == lastSeen(itr)
   loop 0 invariant cap(deleted) == 0 || fresh(arr(deleted))
@@ -382,6 +386,8 @@ func litestream.(*DB).EnforceSnapshotRetention(db, ctx, timestamp) (minSnapshotT
   at litestream.ReplicaClient.DeleteLTXFiles#1 assert [C07.snap-listed] forall i int :: {deleted[i]} 0 <= i && i < len(deleted) ==> (exists k int :: {item(itr, k)} 0 <= k && k < it_n[itr] && deleted[i] == item(itr, k))
   at litestream.ReplicaClient.DeleteLTXFiles#1 assert [C07.snap-keep-newest] it_idx[itr] == it_n[itr] && (forall i int :: {deleted[i]} 0 <= i && i < len(deleted) ==> it_n[itr] >= 1 && deleted[i] != item(itr, it_n[itr] - 1))
   at litestream.ReplicaClient.DeleteLTXFiles#1 assert [C07.snap-enabled] db.RetentionEnabled
+  at os.Remove#1 assert [C07.snap-local] 0 <= rangeindex#1 && rangeindex#1 < len(deleted) && deleted[rangeindex#1].CreatedAt < timestamp && it_n[itr] >= 1 && deleted[rangeindex#1] != item(itr, it_n[itr] - 1)
+  loop 2 invariant itr != nil && it_n[itr] == atloop(it_n[itr]) && -1 <= rangeindex#1 && rangeindex#1 < len(deleted) && (forall i int :: {deleted[i]} 0 <= i && i < len(deleted) ==> deleted[i] != nil && deleted[i].CreatedAt < timestamp && it_n[itr] >= 1 && deleted[i] != item(itr, it_n[itr] - 1))
   ensures [C07.snap-floor] err == nil && minSnapshotTXID != 0 ==> (exists k int :: {item(itr, k)} 0 <= k && k < it_n[itr] && minSnapshotTXID == fmax(item(itr, k)))
   loop 0 invariant itr != nil && itOK(itr) && it_client[itr] == db.Replica.Client && it_level[itr] == 9 && db.Replica == old(db.Replica) && db.Replica.Client == old(db.Replica.Client) && lastInfo == lastSeen(itr)
   loop 0 invariant (cap(deleted) == 0 || fresh(arr(deleted))) && (cap(snapshots) == 0 || fresh(arr(snapshots))) && (cap(deleted) == 0 || cap(snapshots) == 0 || arr(deleted) != arr(snapshots))
@@ -400,6 +406,8 @@ func litestream.(*Compactor).EnforceL0Retention(c, ctx, retention) (err)
   at litestream.ReplicaClient.DeleteLTXFiles#1 assert [C07.l0-keep-newest] len(deleted) < it_n[itr]
   at litestream.ReplicaClient.DeleteLTXFiles#1 assert [C07.l0-old] forall i int :: {deleted[i]} 0 <= i && i < len(deleted) ==> deleted[i].CreatedAt == 0 || deleted[i].CreatedAt <= threshold
   at litestream.ReplicaClient.DeleteLTXFiles#1 assert [C07.l0-enabled] c.RetentionEnabled
+  at litestream.Compactor.LocalFileDeleter#1 assert [C07.l0-local] $arg0 == 0 && 0 <= rangeindex && rangeindex < len(deleted) && $arg1 == deleted[rangeindex].MinTXID && $arg2 == deleted[rangeindex].MaxTXID && len(deleted) < it_n[itr] && deleted[rangeindex] == item(itr, rangeindex) && deleted[rangeindex].MaxTXID <= maxL1TXID && maxL1TXID != 0
+  loop 2 invariant itr != nil && it_n[itr] == atloop(it_n[itr]) && len(deleted) < it_n[itr] && maxL1TXID != 0 && -1 <= rangeindex && rangeindex < len(deleted) && (forall i int :: {deleted[i]} 0 <= i && i < len(deleted) ==> deleted[i] != nil && deleted[i] == item(itr, i) && deleted[i].MaxTXID <= maxL1TXID)
   loop 0 invariant itr != nil && itOK(itr) && it_client[itr] == c.client && it_level[itr] == 1 && c.client == old(c.client)
   loop 0 invariant maxL1TXID == 0 || (exists k int :: {replFile(c.client, 1, k)} 0 <= k && k < it_idx[itr] && maxL1TXID == fmax(replFile(c.client, 1, k)))
   loop 1 invariant itr != nil && itOK(itr) && it_client[itr] == c.client && it_level[itr] == 0 && c.client == old(c.client) && lastInfo == lastSeen(itr) && processedAll && maxL1TXID != 0
@@ -701,7 +709,7 @@ ghost v_belief Bool
 func litestream.(*DB).Close(db, ctx) (err)
   requires db != nil
   at litestream.(*DB).syncLocked#1 assert [C01.close-flushes-all] $arg1 == 0     // the final flush is one unbounded pass (a bounded pass could stop short and Close does not loop)
-  modifies $heap, $alloc, it_idx, l0_has, file_closed, file_written, path_synced, path_handle, pub_dst, pub_renamed, enc_pages, enc_last, pm_commitOff, pm_lastCommit, sync_off, sync_sz, sync_hdr, c05_writeErr, c05_upErr, c05_dpos, c05_uploaded, c05_lockErr, c05_l0max, tx_lockrow
+  modifies $heap, $alloc, it_idx, l0_has, file_closed, file_written, path_synced, path_handle, pub_dst, pub_renamed, enc_pages, enc_last, pm_commitOff, pm_lastCommit, sync_off, sync_sz, sync_hdr, c05_writeErr, c05_upErr, c05_dpos, c05_uploaded, c05_lockErr, c05_l0max, tx_lockrow, tx_done
   at sync.(*RWMutex).Unlock#1 assert [C04.beliefs] !db.syncState.syncedToWALEnd && db.syncState.lastSyncedWALOffset == 0 && !db.syncState.syncedSinceCheckpoint && !db.syncState.truncatePassiveFailed && db.rtx == nil && db.db == nil && !db.opened
 
 // verify(): an incremental continuation (snapshotting == false) is chosen only on one of three kinds of evidence.
@@ -781,7 +789,8 @@ func litestream.(*DB).verifyAndSyncWithExecutor(db, ctx, checkpointing, exec, ma
 
 func litestream.(*DB).checkpointWithExecutor(db, ctx, mode, exec) (walRestarted, err)
   requires db != nil && exec != nil
-  modifies $heap, $alloc, file_written, path_synced, path_handle, file_closed, pub_dst, pub_renamed, enc_pages, enc_last, pm_commitOff, pm_lastCommit, sync_off, sync_sz, sync_hdr, v_off, v_s1, v_s2, v_wsize, v_lpm, v_lpmCalled, v_detected, v_detCalled, v_belief, tx_lockrow, ckx_barrier, ckx_sealed, ckx_copied, ckx_after
+  assumes forall t int :: {tx_lockrow[t]} !allocated(t) ==> !tx_lockrow[t]     // ghost well-formedness: the lock-row ghost is only ever set for transactions that exist
+  modifies $heap, $alloc, file_written, path_synced, path_handle, file_closed, pub_dst, pub_renamed, enc_pages, enc_last, pm_commitOff, pm_lastCommit, sync_off, sync_sz, sync_hdr, v_off, v_s1, v_s2, v_wsize, v_lpm, v_lpmCalled, v_detected, v_detCalled, v_belief, tx_lockrow, tx_done, ckx_barrier, ckx_sealed, ckx_copied, ckx_after
   at litestream.(*DB).verifyAndSyncWithExecutor#1 reset ckx_after = false
   at litestream.(*DB).verifyAndSyncWithExecutor#1 set ckx_copied = ($result1 == nil)
   at sql.(*Tx).ExecContext#1 reset ckx_sealed = false
@@ -799,12 +808,13 @@ func litestream.(*DB).checkpointWithExecutor(db, ctx, mode, exec) (walRestarted,
   at litestream.(*DB).sync#1 set ckx_after = ($result1 == nil)
   ensures [C13.reset] err == nil && exec.checkpointAttempted ==> !exec.state.syncedSinceCheckpoint
   ensures [C02.copy-after] walRestarted ==> err == nil && ckx_after
+  ensures [C14.lock-released] forall t int :: {tx_lockrow[t]} fresh(t) && tx_lockrow[t] ==> tx_done[t]
   ensures err != nil ==> !walRestarted
 
 func litestream.(*DB).checkpointIfNeeded(db, ctx, exec, origWALSize, newWALSize) (err)
   requires db != nil && exec != nil
   assumes 0 <= db.pageSize && db.pageSize <= 65536     // A-pagesize (0 = not yet initialised)
-  modifies $heap, $alloc, file_written, path_synced, path_handle, file_closed, pub_dst, pub_renamed, enc_pages, enc_last, pm_commitOff, pm_lastCommit, sync_off, sync_sz, sync_hdr, v_off, v_s1, v_s2, v_wsize, v_lpm, v_lpmCalled, v_detected, v_detCalled, v_belief, tx_lockrow, ckx_barrier, ckx_sealed, ckx_copied, ckx_after, ck_n, ck_mode, ck_restarted
+  modifies $heap, $alloc, file_written, path_synced, path_handle, file_closed, pub_dst, pub_renamed, enc_pages, enc_last, pm_commitOff, pm_lastCommit, sync_off, sync_sz, sync_hdr, v_off, v_s1, v_s2, v_wsize, v_lpm, v_lpmCalled, v_detected, v_detCalled, v_belief, tx_lockrow, tx_done, ckx_barrier, ckx_sealed, ckx_copied, ckx_after, ck_n, ck_mode, ck_restarted
   at litestream.(*DB).checkpointWithExecutor#all set ck_n = ck_n + 1
   at litestream.(*DB).checkpointWithExecutor#all set ck_mode = $arg1
   at litestream.(*DB).checkpointWithExecutor#1 set ck_restarted = $result0
@@ -826,7 +836,7 @@ ghost c13_lastSynced Bool
 func litestream.(*DB).syncLocked(db, ctx, maxSyncWALBytes) (result, err)
   requires db != nil
   at litestream.(*DB).newSyncExecutor#1 reset pos_verifyErr = nil
-  modifies $heap, $alloc, file_written, path_synced, path_handle, file_closed, pub_dst, pub_renamed, enc_pages, enc_last, pm_commitOff, pm_lastCommit, sync_off, sync_sz, sync_hdr, v_off, v_s1, v_s2, v_wsize, v_lpm, v_lpmCalled, v_detected, v_detCalled, v_belief, tx_lockrow, ckx_barrier, ckx_sealed, ckx_copied, ckx_after, ck_n, ck_mode, ck_restarted, pos_verifyErr, c13_evals, c13_exec
+  modifies $heap, $alloc, file_written, path_synced, path_handle, file_closed, pub_dst, pub_renamed, enc_pages, enc_last, pm_commitOff, pm_lastCommit, sync_off, sync_sz, sync_hdr, v_off, v_s1, v_s2, v_wsize, v_lpm, v_lpmCalled, v_detected, v_detCalled, v_belief, tx_lockrow, tx_done, ckx_barrier, ckx_sealed, ckx_copied, ckx_after, ck_n, ck_mode, ck_restarted, pos_verifyErr, c13_evals, c13_exec
   at litestream.(*DB).newSyncExecutor#1 set c13_exec = ($result0 != nil && $result1 == nil)
   at litestream.(*DB).checkpointIfNeeded#1 assert [C13.sizes] $arg1 == exec && $arg2 == result.origWALSize && $arg3 == result.newWALSize
   at litestream.(*DB).checkpointIfNeeded#1 set c13_evals = c13_evals + 1
@@ -836,7 +846,7 @@ func litestream.(*DB).syncLocked(db, ctx, maxSyncWALBytes) (result, err)
 // syncOnce: syncLocked under the executor semaphore.
 func litestream.(*DB).syncOnce(db, ctx, maxSyncWALBytes) (result, err)
   requires db != nil
-  modifies $heap, $alloc, file_written, path_synced, path_handle, file_closed, pub_dst, pub_renamed, enc_pages, enc_last, pm_commitOff, pm_lastCommit, sync_off, sync_sz, sync_hdr, v_off, v_s1, v_s2, v_wsize, v_lpm, v_lpmCalled, v_detected, v_detCalled, v_belief, tx_lockrow, ckx_barrier, ckx_sealed, ckx_copied, ckx_after, ck_n, ck_mode, ck_restarted, pos_verifyErr, c13_evals, c13_exec
+  modifies $heap, $alloc, file_written, path_synced, path_handle, file_closed, pub_dst, pub_renamed, enc_pages, enc_last, pm_commitOff, pm_lastCommit, sync_off, sync_sz, sync_hdr, v_off, v_s1, v_s2, v_wsize, v_lpm, v_lpmCalled, v_detected, v_detCalled, v_belief, tx_lockrow, tx_done, ckx_barrier, ckx_sealed, ckx_copied, ckx_after, ck_n, ck_mode, ck_restarted, pos_verifyErr, c13_evals, c13_exec
   at litestream.(*DB).syncLocked#1 assert [C13.chunk] $arg1 == maxSyncWALBytes
   ensures [C13.gate] err == nil && c13_exec && (!result.limited || result.syncedToWALEnd) ==> c13_evals == old(c13_evals) + 1
   ensures c13_evals >= old(c13_evals)
@@ -845,7 +855,7 @@ func litestream.(*DB).syncOnce(db, ctx, maxSyncWALBytes) (result, err)
 // evaluated the checkpoint thresholds after that chunk.
 func litestream.(*DB).Sync(db, ctx) (err)
   requires db != nil
-  modifies $heap, $alloc, file_written, path_synced, path_handle, file_closed, pub_dst, pub_renamed, enc_pages, enc_last, pm_commitOff, pm_lastCommit, sync_off, sync_sz, sync_hdr, v_off, v_s1, v_s2, v_wsize, v_lpm, v_lpmCalled, v_detected, v_detCalled, v_belief, tx_lockrow, ckx_barrier, ckx_sealed, ckx_copied, ckx_after, ck_n, ck_mode, ck_restarted, pos_verifyErr, c13_evals, c13_exec, c13_lastSynced
+  modifies $heap, $alloc, file_written, path_synced, path_handle, file_closed, pub_dst, pub_renamed, enc_pages, enc_last, pm_commitOff, pm_lastCommit, sync_off, sync_sz, sync_hdr, v_off, v_s1, v_s2, v_wsize, v_lpm, v_lpmCalled, v_detected, v_detCalled, v_belief, tx_lockrow, tx_done, ckx_barrier, ckx_sealed, ckx_copied, ckx_after, ck_n, ck_mode, ck_restarted, pos_verifyErr, c13_evals, c13_exec, c13_lastSynced
   at litestream.(*DB).syncOnce#1 assert [C13.chunk] $arg1 == db.MaxSyncWALBytes
   at litestream.(*DB).syncOnce#1 set c13_lastSynced = $result0.synced
   loop 0 invariant db == old(db) && c13_evals >= old(c13_evals)
@@ -1119,7 +1129,7 @@ ghost c01_replCalled Bool
 // SyncAndWait acknowledges only after a successful local sync followed by a successful replica sync.
 func litestream.(*DB).SyncAndWait(db, ctx) (err)
   requires db != nil && !c01_replCalled
-  modifies $heap, $alloc, c01_dbErr, c01_replErr, c01_replCalled, it_idx, l0_has, file_closed, c05_writeErr, c05_upErr, c05_dpos, c05_uploaded, c05_lockErr, c05_l0max, file_written, path_synced, path_handle, pub_dst, pub_renamed, enc_pages, enc_last, pm_commitOff, pm_lastCommit, sync_off, sync_sz, sync_hdr, v_off, v_s1, v_s2, v_wsize, v_lpm, v_lpmCalled, v_detected, v_detCalled, v_belief, tx_lockrow, ckx_barrier, ckx_sealed, ckx_copied, ckx_after, ck_n, ck_mode, ck_restarted, pos_verifyErr, c13_evals, c13_exec, c13_lastSynced
+  modifies $heap, $alloc, c01_dbErr, c01_replErr, c01_replCalled, it_idx, l0_has, file_closed, c05_writeErr, c05_upErr, c05_dpos, c05_uploaded, c05_lockErr, c05_l0max, file_written, path_synced, path_handle, pub_dst, pub_renamed, enc_pages, enc_last, pm_commitOff, pm_lastCommit, sync_off, sync_sz, sync_hdr, v_off, v_s1, v_s2, v_wsize, v_lpm, v_lpmCalled, v_detected, v_detCalled, v_belief, tx_lockrow, tx_done, ckx_barrier, ckx_sealed, ckx_copied, ckx_after, ck_n, ck_mode, ck_restarted, pos_verifyErr, c13_evals, c13_exec, c13_lastSynced
   at litestream.(*DB).Sync#1 set c01_dbErr = $result0
   at litestream.(*Replica).Sync#1 assert [C01.ack-order] c01_dbErr == nil && $recv == db.Replica
   at litestream.(*Replica).Sync#1 set c01_replErr = $result0
